@@ -63,5 +63,13 @@ SETS['C18'] = ['settings_new_rejects_exactly_zero_durations', 'settings_defaults
 SETS['C10'] = ['retry_small_counts_all_scripts', 'retry_extreme_counts'] + SETS['C10']
 
 # C14: harnesses generated on every run from the real sources (lib/gen_defs.py)
+MODULES['verif_master.rs'] = {'owner': 'crates/lib/src/services/valve_master_server/service.rs', 'name': 'verif_master'}
+HARNESSES['master_construct_payload'] = {'module': 'verif_master.rs', 'target': 'services::valve_master_server::service::construct_payload', 'timeout': 1200,
+    'what': "request bytes without filters == '1', region byte, ip text, ':', port in decimal, NUL, NUL for all 9 regions (Others = 0xFF as ONE byte)", 'bounded': True, 'bound': 'ports 0, 7, 27015, 65535; one seed ip text; filters None'}
+HARNESSES['master_filter_bool_kinds'] = {'module': 'verif_master.rs', 'target': 'services::valve_master_server::types::Filter::to_bytes', 'timeout': 1200,
+    'what': 'the ten boolean filter kinds encode as \\name\\0|1 with the protocol names (complete over kinds and values)'}
+HARNESSES['master_filter_text_kinds'] = {'module': 'verif_master.rs', 'target': 'services::valve_master_server::types::Filter::to_bytes', 'timeout': 1200,
+    'what': 'text, tag-list and app-id filter kinds encode as \\name\\value', 'bounded': True, 'bound': 'one sample value per kind (text "de_x", tags [a, bc] and [], ids 440 and u32::MAX)'}
+SETS['C16'] = ['master_construct_payload', 'master_filter_bool_kinds', 'master_filter_text_kinds']
 DYNAMIC = {'C14': 'gen_defs'}
 BATCH = {"C14": 16}
